@@ -471,7 +471,55 @@ MerchantExposureBounded ==
 NoDoubleSpend ==
   \A ch \in Channels : \A i, j \in 1..Len(spent[ch]) : i # j => spent[ch][i] # spent[ch][j]
 
+-----------------------------------------------------------------------------
+(* Dispute outcomes at ledger level.  The arbiter (on-chain contract, outside the library) pays a  *)
+(* presented closing signature on state i of channel ch as <<cb_i, mb_i>>, unless the merchant     *)
+(* answers with the revocation secret of state i (its lock was disclosed in a lock message): then  *)
+(* the merchant takes the whole channel.  What each party can obtain from every reachable joint    *)
+(* state - in particular when the other party stops answering at any step - follows.               *)
+Total(ch)       == NAdd(led[ch][1][1], led[ch][1][2])
+Outcome(ch, i)  == IF LockOf(ch, i) \in revealed THEN <<NZero, Total(ch)>> ELSE Bal(ch, i)
+ClosingSigs(ch) == {i \in 0..(Len(led[ch]) - 1) : [key |-> MerOf(ch), msg |-> CloseMsg(ch, i)] \in issued}
+(* states whose pay token exists: the merchant has delivered for every payment up to them *)
+Served(ch)      == {k \in 0..(Len(led[ch]) - 1) : [key |-> MerOf(ch), msg |-> StateMsg(ch, k)] \in issued}
+
+(* a closing signature never runs ahead of the served states by more than the payment in flight *)
+DisputeWindow ==
+  \A ch \in Channels : \A i \in ClosingSigs(ch) : i = 0 \/ (i - 1) \in Served(ch)
+(* whoever (honest or malicious customer) closes on a state older than a served one loses everything *)
+DisputePunishOld ==
+  \A ch \in Channels : \A i \in ClosingSigs(ch), k \in Served(ch) :
+      i < k => Outcome(ch, i) = <<NZero, Total(ch)>>
+(* every outcome distributes exactly the channel total *)
+DisputeOutcomeConserves ==
+  \A ch \in Channels : \A i \in ClosingSigs(ch) :
+      NAdd(Outcome(ch, i)[1], Outcome(ch, i)[2]) = Total(ch)
+(* hence the merchant's payoff from ANY closing signature in existence is its balance in the newest *)
+(* served state, in that state's successor (payment in flight), or the whole channel                 *)
+MerchantPayoffBound ==
+  \A ch \in Channels : \A i \in ClosingSigs(ch) :
+      \/ Served(ch) = {}
+      \/ Outcome(ch, i) = <<NZero, Total(ch)>>
+      \/ \E s \in Served(ch) : (\A k \in Served(ch) : k <= s) /\ i \in {s, s + 1}
+(* the honest customer, at every point where the merchant may stop answering, obtains the balances  *)
+(* of its newest state - or, while a payment is only started, of the state before it - and is never *)
+(* punishable; a closing message once published stays unpunishable                                   *)
+DisputeCustomerSafe ==
+  \A ch \in Channels \ AdvChannels :
+     /\ Closable(ch) =>
+           /\ CloseIdx(ch) \in ClosingSigs(ch)
+           /\ Outcome(ch, CloseIdx(ch)) = Bal(ch, CloseIdx(ch))
+           /\ CloseIdx(ch) = Len(led[ch]) - (IF cust[ch].stage = "started" THEN 2 ELSE 1)
+     /\ closed[ch].has => Outcome(ch, closed[ch].k) = <<closed[ch].cb, closed[ch].mb>>
+
 (* Action properties *)
+(* the customer's dispute outcome changes only by steps the customer itself takes and accepts:      *)
+(* a start it makes, or a reply it accepts; never by a merchant step, a refused reply or a restore  *)
+OutcomeOnlyByCustomer ==
+  [][\A ch \in Channels \ AdvChannels :
+        (Closable(ch) /\ cust'[ch].stage \in {"inactive", "ready", "started", "locked"}
+           /\ led'[ch][cust'[ch].k + 1] # led[ch][cust[ch].k + 1])
+        => (last'.act = "receive" /\ last'.out = "ok" /\ last'.ch = ch /\ cust[ch].stage = "started")]_vars
 (* C03: a refused reply leaves the customer state unchanged; a revocation secret is   *)
 (* released only in the step that accepts a valid closing signature on the successor  *)
 RefusedIsInert ==
